@@ -123,8 +123,8 @@ def observe(st):
     from statham.schema.parser import parse_element
     from statham.schema.exceptions import SchemaParseError, FeatureNotImplementedError, ValidationError
     ob = {"parse": None, "call": "none", "terminated": True}
-    signal.signal(signal.SIGALRM, _alarm)
-    signal.alarm(20)
+    signal.signal(signal.SIGVTALRM, _alarm)          # 20 s of CPU time of this process (not wall-clock)
+    signal.setitimer(signal.ITIMER_VIRTUAL, 20)
     try:
         schema = atom_schema(case["atom"], case["arg"])
         try:
@@ -148,7 +148,7 @@ def observe(st):
     except _Timeout:
         ob["terminated"] = False
     finally:
-        signal.alarm(0)
+        signal.setitimer(signal.ITIMER_VIRTUAL, 0)
     return ob
 
 
@@ -183,8 +183,8 @@ def _rand_observe(doc):
     from statham.schema.parser import parse_element
     from statham.schema.exceptions import SchemaParseError, FeatureNotImplementedError
     out = []
-    signal.signal(signal.SIGALRM, _alarm)
-    signal.alarm(60)
+    signal.signal(signal.SIGVTALRM, _alarm)
+    signal.setitimer(signal.ITIMER_VIRTUAL, 60)
     try:
         try:
             el = parse_element(drive.label(doc))
@@ -202,7 +202,7 @@ def _rand_observe(doc):
     except _Timeout:
         out.append(("ok", "none", False, None))
     finally:
-        signal.alarm(0)
+        signal.setitimer(signal.ITIMER_VIRTUAL, 0)
     return out
 
 
@@ -241,7 +241,7 @@ def random_extremes(rep, tier):
         k = klist[l["reject"] - 1]
         doc, vi = kinds[k]
         real = k[0] if k[0] != "ok" else k[1]
-        what = "does not terminate within 60 s" if not k[2] else f"{real} escapes"
+        what = "does not terminate within 60 s of CPU time" if not k[2] else f"{real} escapes"
         rep.violation(("C10", "random-extreme", real.split(":")[-1]),
                       f"{what}: schema {json.dumps(doc, default=_srepr)[:300]}"
                       + (f" value {_srepr(RVALS[vi])}" if vi is not None else ""),
@@ -347,7 +347,7 @@ def collect(rep, tier, pid="C10"):
             st, ob = states[si], obs[si]
             c = st["case"]
             real = (ob["parse"] or "none") if ob["parse"] != "ok" else ob["call"]
-            what = "does not terminate within 20 s" if not ob["terminated"] else f"{real} escapes ({ob.get('msg', '')})"
+            what = "does not terminate within 20 s of CPU time" if not ob["terminated"] else f"{real} escapes ({ob.get('msg', '')})"
             where = "parse_element" if ob["parse"] != "ok" else "call"
             rep.violation(("C10", "extreme", c["atom"] if where == "call" else "parse:" + c["atom"], real.split(":")[-1]),
                           f"{where}: schema {json.dumps(atom_schema(c['atom'], c['arg']), default=repr)[:140]} "
